@@ -63,6 +63,19 @@ func init() {
 		},
 		Assume: []string{"IP.String is an injective constructor of the string datatype (map keys)", "net.CIDRMask / IP.Mask / IPNet.Contains are executed from the standard library's own SSA"},
 		Outside: []string{"more than two NICs attached before the step", "IPv6 subnets", "the user supplying the same static address twice (not constrained by the property)"}})
+	register(&Prop{ID: "C14", Pkgs: vnetPkgs, InitPkgs: []string{"vnet"}, InstrDirs: []string{"vnet"},
+		Runs: func(tier string) []gosym.RunConfig {
+			k, ticks, steps := int64(1), int64(1), int64(60)
+			if tier == "thorough" {
+				k, ticks, steps = 2, 1, 90
+			}
+			return []gosym.RunConfig{{Name: fmt.Sprintf("delayfilter-k%d-t%d", k, ticks), Entry: "VerifDelayFilter", Sched: true, SmallInts: 48, Unwind: 6, AssertPrefix: "C14:", Params: map[string]int64{"k": k, "ticks": ticks, "steps": steps}}}
+		},
+		Bounds: func(tier string) []string {
+			return []string{"DelayFilter: Run goroutine + one producer handing in 1 (thorough 2) datagrams, a clock goroutine advancing time once at an arbitrary moment, delay 0..50 (symbolic), gaps 0..60 (symbolic) between arrivals, channel-timer expiries dispatched at any later step, all interleavings at channel/select/lock granularity"}
+		},
+		Assume: []string{"time.NewTimer/Stop/Reset/C follow the legacy channel-timer semantics (one buffered tick, Reset does not drain)", "the clock advances only when the producer (or the harness) advances it", "context.Context is a harness model whose Done channel is never closed"},
+		Outside: []string{"the router's minDelay/maxJitter path (see DESIGN.md)", "more than one producer"}})
 	for _, id := range []string{"C02", "C03"} {
 		register(&Prop{ID: id, Pkgs: vnetPkgs, InitPkgs: []string{"vnet"}, InstrDirs: []string{"vnet"}, Runs: natRuns(id + ":"), Bounds: natBounds, Assume: natAssume,
 			Outside: []string{"more than k datagrams (in particular more than 16384 allocations: see DESIGN.md)", "more than 2 internal endpoints / 3 remotes", "IPv6"}})
